@@ -741,6 +741,11 @@ func init() {
 					js = append(js, j)
 				}
 			}
+			if tier == "thorough" {
+				for _, j := range js {
+					j.Params["K"] = "5"
+				}
+			}
 			for _, e := range []string{"[name, owner.name]", "[owner.name, name]", "[owner.name, kids[0].name, name]", "kids[*].name", "owner.age", "[kids[0].name, owner.name]"} {
 				j := jobOf("VerifStructAnon", []string{"C18"}, "expr", e)
 				j.Unwind = 64 + 4*len(e)
@@ -749,10 +754,10 @@ func init() {
 			return js
 		},
 		Bounds: func(tier string) map[string]interface{} {
-			return map[string]interface{}{"struct_type": "struct{A string; N float64; P *T; S []T; Q []*T; L []string; F []float64} by value and by pointer", "slices": "length 0..2", "pointers": "nil or non-nil (solver-chosen)", "navigation_templates": len(nav), "function_templates": len(funcs)}
+			return map[string]interface{}{"struct_type": "struct{A string; N float64; P *T; S []T; Q []*T; L []string; F []float64} by value and by pointer", "slices": map[string]string{"quick": "length 0..2", "thorough": "length 0..4"}[tier], "pointers": "nil or non-nil (solver-chosen)", "navigation_templates": len(nav), "function_templates": len(funcs)}
 		},
 		Assumptions: append(append([]string{}, commonAssumptions...), "reflect is a model implemented in the executor (ValueOf, TypeOf, Kind, Len, Index, Interface, IsNil, Elem, FieldByName, IsValid, DeepEqual) over its own typed values"),
-		Outside:     []string{"struct shapes other than the harness type (embedded fields, maps with non-string keys, unexported fields)", "nil typed slices", "slices longer than 2"},
+		Outside:     []string{"struct shapes other than the harness type (embedded fields, maps with non-string keys, unexported fields)", "nil typed slices", "slices longer than 2 (quick) / 4 (thorough)"},
 		Explain:     "Search on struct/pointer/typed-slice documents vs Search on the equivalent generic JSON image; every built-in applied to typed slices must not panic",
 	}
 }
